@@ -9,13 +9,14 @@ Two monitors:
 import itertools
 
 from vf import common
+from vf.models import cpulimit
 
 CHECK = dict(
     id="C10", level="exploration",
     rule=("(A) exhaustive: every pair of single ranges [a,b]x[c,d] of width 1..4 (quick) / 1..6 (thorough) for "
           "each binary ModularIntervals operation, every range for unary minus and every modulus, integer "
           "promotion, every pair of non-empty interval sets of width <=3 (all subsets; thorough: also width 4 "
-          "with <=2 intervals), set union/intersection; random sets of 1-3 wrapped/unwrapped intervals at "
+          "with <=2 intervals for + and the shifts/rotations), set union/intersection; random sets of 1-3 wrapped/unwrapped intervals at "
           "widths 5..16 with sampled members. (B) random expression trees over the operators with range "
           "handlers (+ & | ^ * shifts rotations unary- % slice compose cond, unhandled operators for the "
           "default), widths 1..16; all assignments when the identifiers total <=12 bits, else 24 sampled "
@@ -25,7 +26,9 @@ CHECK = dict(
                  "empty operand sets (vacuous) are not submitted to the interval operations",
                  "precision is not demanded, only containment; exceptions of expr_range on an expression that "
                  "has a defined value are reported"],
-    exhaustive={"quick": True, "thorough": True},
+    # the interval-operation monitor (A) is exhaustive for the stated small widths, the expression monitor (B)
+    # samples trees: the check as a whole is not an exhaustive enumeration of its domain
+    exhaustive={"quick": False, "thorough": False},
     timeout={"quick": 900, "thorough": 3600},
     technique="runtime monitoring: brute-force image / reference-semantics membership oracle",
     level_text=("interval operations exhaustive for widths <=4 (quick) / <=6 (thorough) on single ranges and "
@@ -74,11 +77,12 @@ def shards(tier, seed, scale):
         for op in BIN:
             items.append(("sets2", op, w, 0, 1, 70 ** w))
     if tier == "thorough":
-        for op in BIN:
+        # the product/union wrapper is shared by + & | ^ *: one of them and the count-enumerating operations
+        for op in ['+', 'a>>', '<<', '>>', '>>>', '<<<']:
             for p in range(16):
                 items.append(("sets2w4", op, 4, p, 16, 16 ** 5))
     items.sort(key=lambda it: -it[-1])
-    per_expr = 2500 if tier == "quick" else 60000
+    per_expr = 2500 if tier == "quick" else 30000
     per_rand = 1500 if tier == "quick" else 40000
     out = common.mk_shards(NSHARDS, seed, tier, per_expr, scale)
     # greedy balance of the exhaustive items
@@ -97,7 +101,7 @@ def shards(tier, seed, scale):
 
 def run_shard(params, rec):
     common.quiet()
-    common.install_case_timer()
+    cpulimit.install()
     rng = common.rng_for(params)
     if params.get("stride", 1) > 1:
         rec.count("thinned")
@@ -145,6 +149,7 @@ class IntervalMonitor(object):
         self.rng = rng
         self.stride = stride
         self._img = {}
+        self.hung = {}
 
     def mk(self, w, runs):
         return self.MI(w, [tuple(r) for r in runs])
@@ -166,9 +171,19 @@ class IntervalMonitor(object):
         self.rec.ev()
         self.rec.count("mi_op:" + opname)
         self.rec.count("mi_width:%d" % w)
+        if self.hung.get(opname, 0) >= 2:
+            self.rec.count("skipped_after_hangs:" + opname)
+            return None, None
         try:
-            r = fn()
-            got = self.rg.to_mask(r)
+            with cpulimit.cpu_limit(5):
+                r = fn()
+                got = self.rg.to_mask(r)
+        except cpulimit.CpuTimeout:
+            self.hung[opname] = self.hung.get(opname, 0) + 1
+            self.rec.fail("ModularIntervals %s does not terminate (5s CPU)" % opname,
+                          "width %d: %s %s %s" % (w, xs, opname, ys),
+                          dict(op=opname, width=w, x=repr(xs), y=repr(ys)))
+            return None, None
         except Exception as exc:
             self.rec.fail("ModularIntervals %s raises %s" % (opname, type(exc).__name__),
                           "width %d: %s %s %s raised %r" % (w, xs, opname, ys, exc),
@@ -410,9 +425,9 @@ class ExprMonitor(object):
                 g, mode = self.large, "large"
                 e = g.expr(self.rng.choice(list(range(1, 17)) + [8, 16, 16]), self.rng.choice([1, 2, 3, 4]))
             try:
-                with common.time_limit(30):
+                with cpulimit.cpu_limit(30):
                     self.one(e, mode, i)
-            except common.CaseTimeout:
+            except cpulimit.CpuTimeout:
                 self.rec.count("expr_timeout_30s")
 
     def valuations(self, e, mode, i):
@@ -546,8 +561,8 @@ def floors(tier, counters, evaluations):
         if counters.get("handler:" + h, 0) < need:
             miss.append("handler %s seen in %d expressions (<%d)" % (h, counters.get("handler:" + h, 0), need))
     for op in BIN + ["neg", "mod", "union", "intersection"] + [o + " int" for o in BIN]:
-        if counters.get("mi_op:" + op, 0) < 1000:
-            miss.append("ModularIntervals %s evaluated %d times (<1000)" % (op, counters.get("mi_op:" + op, 0)))
+        if counters.get("mi_op:" + op, 0) < (100 if thinned else 1000):
+            miss.append("ModularIntervals %s evaluated %d times" % (op, counters.get("mi_op:" + op, 0)))
     if not thinned:
         maxw = 4 if tier == "quick" else 6
         want = sum(((1 << w) * ((1 << w) + 1) // 2) ** 2 for w in range(1, maxw + 1))
@@ -560,6 +575,9 @@ def floors(tier, counters, evaluations):
     if counters.get("expr_range_is_proper_subset", 0) < need:
         miss.append("only %d expressions with a range smaller than the full domain" %
                     counters.get("expr_range_is_proper_subset", 0))
+    if counters.get("expr_timeout_30s", 0) > 0.005 * max(1, counters.get("expr_mode:small", 0) +
+                                                          counters.get("expr_mode:large", 0)):
+        miss.append("%d expression cases hit the 30 s case limit" % counters.get("expr_timeout_30s", 0))
     if counters.get("valuations_checked", 0) < 10 * need:
         miss.append("only %d assignments evaluated" % counters.get("valuations_checked", 0))
     return miss
